@@ -227,11 +227,13 @@ fn track_walk<'a>(node: &ast::Stmt<'a>, state: &mut AssignmentTracker<'a>) {
         ast::Stmt::EmitExpr(expr) => tracker_visit_expr(&expr.expr, state),
         ast::Stmt::EmitRaw(_) => {}
         ast::Stmt::ForLoop(stmt) => {
-            state.push();
-            state.assign("loop");
+            // the iterable is evaluated outside of the loop, and the filter
+            // expression sees the loop target but not the `loop` variable
             tracker_visit_expr(&stmt.iter, state);
+            state.push();
             track_assign(&stmt.target, state);
             tracker_visit_expr_opt(&stmt.filter_expr, state);
+            state.assign("loop");
             stmt.body.iter().for_each(|x| track_walk(x, state));
             state.pop();
             state.push();
